@@ -321,6 +321,9 @@ func Annotate(root *Node, base Opts, captureOrder bool) *Info {
 			// (?(test)yes|no) is a group: the test is parenthesised on its own, the branches share one scope
 			walk(n.Kids[0], o)
 			cur := walk(n.Kids[1], o)
+			if n.Kids[1].K == KAlt {
+				cur = o // printed inside (?:...), which restores options
+			}
 			walk(n.Kids[2], cur)
 			return o
 		case KSeq, KAlt:
